@@ -21,10 +21,10 @@ Shape of the models.
   is `removeIndices` (the model of `Vec::remove_indices`, `Model/Overlaps.lean`) applied to it.
   The start token of a run is mutated by the Rust loop while the cursor moves on; here it is held
   back (`held` = tokens already passed, most recent first) and emitted when the run ends.
-* `condense_spaces` and `condense_newlines` are the same loop up to two quirks, made explicit in
-  `RunCfg`: `condense_spaces` checks that the child is adjacent in the source and advances its
-  cursor a second time after a merge (so the token after a merged one is never examined, and of
-  `" \t "` only the first two tokens are merged); `condense_newlines` does neither.
+* `condense_spaces` and `condense_newlines` are the same loop up to one difference, made explicit
+  in `RunCfg`: `condense_spaces` checks that the child is adjacent in the source ("Only condense
+  adjacent spans"); `condense_newlines` does not. (`condense_spaces` used to advance its cursor a
+  second time after a merge; that was repaired in /repo and the model's `dbl`/`skip` is gone.)
 * `find_all_matches`, `condense_pattern`, `condense_indices` index into vectors; they are modelled
   with `Except Panic` on `List` (`drop`/`take`/`set`), literally: the overlap filter of
   `find_all_matches` looks at adjacent pairs of the ORIGINAL list, `condense_pattern` reads the
@@ -56,16 +56,12 @@ structure RunCfg where
   mkKind : Nat → Kind
   /-- "Only condense adjacent spans": `start_tok.span.end != child_tok.span.start → break` -/
   adj : Bool
-  /-- `cursor += 1` after a merge, on top of the `cursor += 1` at the head of the inner loop -/
-  dbl : Bool
 
 inductive RunMode where
   /-- outer `while`: looking for the start of a run -/
   | scan
   /-- inner `loop` after `cursor += 1`: the start token has span `s` and count `n` so far -/
   | absorb (s : Span) (n : Nat) (held : List (Tok × Bool))
-  /-- the extra `cursor += 1` after a merge: one token is passed without being looked at -/
-  | skip (s : Span) (n : Nat) (held : List (Tok × Bool))
 
 def runGo (cfg : RunCfg) : RunMode → List Tok → List (Tok × Bool)
   | .scan, [] => []
@@ -81,24 +77,18 @@ def runGo (cfg : RunCfg) : RunMode → List Tok → List (Tok × Bool)
       (⟨s, cfg.mkKind n⟩, false) :: (held.reverse ++ (c, false) :: runGo cfg .scan r)
     else
       match cfg.sel c.kind with
-      | some m =>
-        if cfg.dbl then runGo cfg (.skip ⟨s.start, c.span.stop⟩ (n + m) ((c, true) :: held)) r
-        else runGo cfg (.absorb ⟨s.start, c.span.stop⟩ (n + m) ((c, true) :: held)) r
+      | some m => runGo cfg (.absorb ⟨s.start, c.span.stop⟩ (n + m) ((c, true) :: held)) r
       | none => (⟨s, cfg.mkKind n⟩, false) :: (held.reverse ++ (c, false) :: runGo cfg .scan r)
-  | .skip s n held, [] => (⟨s, cfg.mkKind n⟩, false) :: held.reverse
-  | .skip s n held, d :: r => runGo cfg (.absorb s n ((d, false) :: held)) r
 
 def spacesCfg : RunCfg where
   sel := fun | .space n => some n | _ => none
   mkKind := .space
   adj := true
-  dbl := false
 
 def newlinesCfg : RunCfg where
   sel := fun | .newline n => some n | _ => none
   mkKind := .newline
   adj := false
-  dbl := false
 
 def condenseSpaces (toks : List Tok) : List Tok := dropFlagged (runGo spacesCfg .scan toks)
 def condenseNewlines (toks : List Tok) : List Tok := dropFlagged (runGo newlinesCfg .scan toks)
